@@ -24,7 +24,7 @@ if metas:
     out.append("\n### 8.4 Seeded defects (written by sub-agents that saw only the property text) and which check catches them\n")
     caught=sum(1 for m in metas if m.get('caught_by_check')=='yes')
     out.append(f"{len(metas)} seeded defects kept (each confirmed: applies, builds, existing tests of the touched packages pass, its own demonstration fails with the change and passes without); {caught} are caught by the registered quick check of their property within the stated budget.\n")
-    out.append("Three rounds were written, each by fresh sub-agents that saw only the property text, a private worktree and the one-line descriptions of the ideas already taken (names `CNN-k`, `CNN-r2-k`, `CNN-r3-k`). The table shows the state after strengthening; what the checks caught *before* strengthening is the honest measure of their reach at that moment: in round 2, 29 of 60 were caught on the first pass (one more only after the driver learnt to report reproduced violations from a batch whose other workers had been killed by the seeded defect's 4 GiB allocations); in round 3, 21 of 40. Every miss was handed back to the scenario's author with the instruction to cover the *family* the miss reveals (a workload, fault kind, topology or oracle clause), never the patch; all misses turned out to be reachable by the simulation. Strengthening also exposed genuine defects on the pinned tree (registry index residue, handshake reply before location registration, WebSocket read limit, SOCKS5 tunnel request for a mapping without listen client, hybrid cache read errors reported as not-found, lost update of mapping records) and seven harness mistakes (§8.2). Patches that stopped applying after a `fix:` commit were re-ported by hand onto the repaired tree and re-confirmed with their demonstrations (C01-1..3, C07-r2-1/3, C08-r2-1, C14-1/2, C14-r2-1, C17-1).\n")
+    out.append("Three rounds were written, each by fresh sub-agents that saw only the property text, a private worktree and the one-line descriptions of the ideas already taken (names `CNN-k`, `CNN-r2-k`, `CNN-r3-k`). The table shows the state after strengthening; what the checks caught *before* strengthening is the honest measure of their reach at that moment: in round 2, 29 of 60 were caught on the first pass (one more only after the driver learnt to report reproduced violations from a batch whose other workers had been killed by the seeded defect's 4 GiB allocations); in round 3, 21 of 40. Every miss was handed back to the scenario's author with the instruction to cover the *family* the miss reveals (a workload, fault kind, topology or oracle clause), never the patch; all misses turned out to be reachable by the simulation. Strengthening also exposed genuine defects on the pinned tree (registry index residue, handshake reply before location registration, WebSocket read limit, SOCKS5 tunnel request for a mapping without listen client, hybrid cache read errors reported as not-found, lost update of mapping records) and seven harness mistakes (§8.2). Patches that stopped applying after a `fix:` commit were re-ported by hand onto the repaired tree and re-confirmed with their demonstrations (C01-1..3, C07-r2-1/3, C08-r2-1, C14-1/2, C14-r2-1, C17-1). Two first-round changes were dropped because a later `fix:` commit neutralised them (their demonstrations pass with the change applied): C07-2 earlier, and C07-1 after the handshake reorder (the re-registered dead connection is now cleaned up by the failing reply write).\n")
     out.append("| seeded defect | property | caught | signatures raised (first few) | what it needs to manifest |\n|---|---|---|---|---|")
     for m in metas:
         need=needs.get(m['name'],m.get('needs_to_manifest',''))
